@@ -20,13 +20,16 @@ def historyStepM (ps : PState) (_i : Nat) (toks : List String) : PState × StepO
   | ["scribble"] => (ps, .fields "r=ok")
   | ["pool", _] => (ps, .fields "r=ok")
   | ["gc"] => (ps, .fields "r=ok")
+  -- `t.Norm(ord, axes...)`: the value is not modelled (norms are outside the properties); the step exists for what the
+  -- call must leave alone - the operand, every other tensor, and the caller's axes slice (field `argmut` of the harness)
+  | ["norm", _, _, _] => (ps, .fields "r=ok")
   | _ => (ps, .fields "r=badprog")
 
 def historyStepS (_psBefore psAfter : PState) (ss : SState) (_i : Nat) (_toks : List String) (_mres : String) : SOut :=
   finS psAfter ss (some "r=ok")
 
 def historyFamily : Family :=
-  { name := "History", keys := ["ret", "scribble", "pool", "gc"], stepM := historyStepM, stepS := historyStepS,
+  { name := "History", keys := ["ret", "scribble", "pool", "gc", "norm"], stepM := historyStepM, stepS := historyStepS,
     excl := fun _ _ => ([], false) }
 
 end TM
